@@ -54,6 +54,9 @@ type callWorld struct {
 	withC  *z.StructSchema       // struct with a custom field next to a tested primitive field
 	listC  *z.SliceSchema        // slice of custom elements
 	opted  *z.StringSchema[string] // a test carrying every option (path, code, message, params)
+	ctxStr *z.StringSchema[string] // a test whose message renders what the call's context holds under k and k2
+	optK   z.ExecOption          // ONE option value (WithCtxValue(k, shared)) that several calls pass, as code that builds its options once does
+	optF   z.ExecOption          // likewise one WithIssueFormatter value
 	objects []*callObj           // the shared schema objects, with the deep snapshot taken right after construction
 	kinds  []*callKind
 	byName map[string]*callKind
@@ -222,6 +225,11 @@ func newCallWorld(x *mc.X) *callWorld {
 		}
 		return nil
 	})
+	w.ctxStr = z.String().TestFunc(func(v any, c z.Ctx) bool { return false }, z.IssueCode("ctx_probe"), z.MessageFunc(func(e *z.ZogIssue, c z.Ctx) {
+		e.SetMessage(fmt.Sprintf("k=%v k2=%v", c.Get("k"), c.Get("k2")))
+	})).Min(3)
+	w.optK = z.WithCtxValue("k", "shared")
+	w.optF = z.WithIssueFormatter(func(e *z.ZogIssue, c z.Ctx) { e.SetMessage(fmt.Sprintf("shared-formatter k2=%v", c.Get("k2"))) })
 	for _, o := range []struct {
 		n string
 		v any
@@ -250,6 +258,27 @@ func newCallWorld(x *mc.X) *callWorld {
 	add(&callKind{name: "String.Parse/two-failing-tests+ctx-value+formatter", class: "primitive", run: func(w *callWorld) (any, any) {
 		var d string
 		return w.str.Parse("ab", &d, z.WithCtxValue("k", "v"), z.WithIssueFormatter(func(e *z.ZogIssue, c z.Ctx) { e.SetMessage("own-formatter") })), &d
+	}})
+	// option values built once and passed to several calls
+	add(&callKind{name: "String.Parse/shared-option-value", class: "primitive", run: func(w *callWorld) (any, any) {
+		var d string
+		return w.ctxStr.Parse("ab", &d, w.optK), &d
+	}})
+	add(&callKind{name: "String.Parse/shared-option-value-then-another-key", class: "primitive", run: func(w *callWorld) (any, any) {
+		var d string
+		return w.ctxStr.Parse("ab", &d, w.optK, z.WithCtxValue("k2", "extra")), &d
+	}})
+	add(&callKind{name: "String.Parse/shared-option-value-then-the-same-key", class: "primitive", run: func(w *callWorld) (any, any) {
+		var d string
+		return w.ctxStr.Parse("ab", &d, w.optK, z.WithCtxValue("k", "override")), &d
+	}})
+	add(&callKind{name: "String.Parse/another-key-then-shared-option-value+shared-formatter", class: "primitive", run: func(w *callWorld) (any, any) {
+		var d string
+		return w.ctxStr.Parse("ab", &d, z.WithCtxValue("k2", "first"), w.optK, w.optF), &d
+	}})
+	add(&callKind{name: "String.Validate/shared-formatter-value", class: "primitive", run: func(w *callWorld) (any, any) {
+		d := "ab"
+		return w.ctxStr.Validate(&d, w.optF), &d
 	}})
 	for _, in := range []struct {
 		n string
